@@ -675,7 +675,9 @@ class ExprMixin:
                 self.path.trace.append(('raised', name, exn))
                 raise PyRaise(self.exc_class(exn, fr.module if fr else None), (), node)
         if ret is not None:
-            return self.sym_of_sort(ret, 'r_' + name, fr)
+            rv = self.sym_of_sort(ret, 'r_' + name, fr)
+            self.path.trace[-1] = self.path.trace[-1] + (rv,)      # the returned value is the last component of the event
+            return rv
         return None
 
     def obj_attr(self, base, attr, node):
